@@ -1,5 +1,15 @@
 //! Native runner for the harnesses: `native <harness> random <n> <seed>` or `native <harness> replay <file.json>`.
 //! Exit 0: no assertion failed; 1: a harness assertion / real-code panic fired (printed); 3: unknown harness.
+#[cfg(kani)]
+fn main() {}
+
+#[cfg(not(kani))]
+fn main() {
+    real::main()
+}
+
+#[cfg(not(kani))]
+mod real {
 use std::panic;
 use vk_core::shim;
 
@@ -22,7 +32,7 @@ fn run_once(f: fn(), seed: u64, recorded: Option<Vec<Vec<u8>>>) -> Result<bool, 
     }
 }
 
-fn main() {
+pub fn main() {
     let a: Vec<String> = std::env::args().collect();
     let name = &a[1];
     let f = match vk_core::native_table::lookup(name) {
@@ -82,4 +92,5 @@ fn main() {
         }
         _ => std::process::exit(3),
     }
+}
 }
